@@ -512,6 +512,9 @@ const (
 )
 
 func decodeAddresses(v []byte) (addresses []net.IP, err error) {
+	if len(v) < 4 {
+		return nil, fmt.Errorf("Invalid Address TLV length %d", len(v))
+	}
 	numaddr := int(binary.BigEndian.Uint32(v[0:4]))
 	if numaddr < 1 {
 		return nil, fmt.Errorf("Invalid Address TLV number %d", numaddr)
@@ -530,11 +533,18 @@ func decodeAddresses(v []byte) (addresses []net.IP, err error) {
 			(prottype == CDPProtocolType802_2 && protlen != 3 && protlen != 8) { // invalid length
 			return nil, fmt.Errorf("Invalid Address Protocol length %d", protlen)
 		}
+		// protocol, then the 2 byte address length
+		if len(v) < 2+protlen+2 {
+			return nil, fmt.Errorf("Invalid Address TLV length %d", len(v))
+		}
 		plen := make([]byte, 8)
 		copy(plen[8-protlen:], v[2:2+protlen])
 		protocol := CDPAddressType(binary.BigEndian.Uint64(plen))
 		v = v[2+protlen:]
-		addrlen := binary.BigEndian.Uint16(v[0:2])
+		addrlen := int(binary.BigEndian.Uint16(v[0:2]))
+		if len(v) < 2+addrlen {
+			return nil, fmt.Errorf("Invalid Address length %d", addrlen)
+		}
 		ab := v[2 : 2+addrlen]
 		if protocol == CDPAddressTypeIPV4 && addrlen == 4 {
 			addresses = append(addresses, net.IPv4(ab[0], ab[1], ab[2], ab[3]))
